@@ -37,6 +37,10 @@ class Library:
         """
         if isinstance(blocks, Block):
             blocks = [blocks]
+        else:
+            # Work on a snapshot: `blocks` may be a one-shot iterator, or this library's own
+            #   (growing) block list.
+            blocks = list(blocks)
 
         _added_blocks = []
         for block in blocks:
@@ -65,6 +69,9 @@ class Library:
         :raises ValueError: If block is not in library."""
         if isinstance(blocks, Block):
             blocks = [blocks]
+        else:
+            # Work on a snapshot: `blocks` may be this library's own (shrinking) block list.
+            blocks = list(blocks)
 
         # Make sure all blocks are in the library before removing any of them,
         #   such that a failing call leaves the library unchanged.
